@@ -127,7 +127,8 @@ def conjunct_selection_rule(cx, rep, rid):
             continue
         members = {}      # lid of the binding that holds the members of an intersection
         for n in walk(t["body"]):
-            if n["k"] == "P.TupleStruct" and (n.get("def") or "").endswith("RuntypeKind::AllOf"):
+            if n["k"] == "P.TupleStruct" and (n.get("def") or "").endswith(("RuntypeKind::AllOf", "RuntypeKind::AnyOf")):
+                # unions too: an answer taken from the first member that has one drops the other alternatives
                 for b in walk(n):
                     if b["k"] == "P.Binding":
                         members[b.get("lid")] = b
@@ -160,7 +161,7 @@ def conjunct_selection_rule(cx, rep, rid):
                "%s %s of an intersection (%s): every member of `A & B` constrains the value, an answer taken from the first member that has one drops the constraints of the others - `(A & B)[\"k\"]` with `k` declared by both, the wider declaration sorting first, yields a validator that accepts non-members"
                % (g, "; ".join(sorted({b[1] for b in bad})), "lines %s" % sorted({b[0] for b in bad})),
                "%s:%s" % (f.file, bad[0][0] if bad else f.line), sample={"fn": g, "intersection_payload_bindings": len(members)})
-    rep.floor(rid, "functions that take an intersection apart (frontend / printer / IR)", n_sites, 4)
+    rep.floor(rid, "functions that take an intersection or a union apart (frontend / printer / IR)", n_sites, 6)
 
 
 # ---------------------------------------------------------------------------------------------------------------------
@@ -365,6 +366,115 @@ def registration_routes_rule(cx, rep, rid):
                % (v, "; ".join("%s -> {%s}" % (g.rsplit("::", 1)[-1], ", ".join(sorted(s_))) for g, s_ in sorted(sets.items()))), f0.loc(),
                sample={"payload": v, "routes": {g.rsplit("::", 1)[-1]: sorted(s_) for g, s_ in sets.items()}})
     rep.floor(rid, "export payload variants registered by more than one route", n, 3)
+
+
+# ---------------------------------------------------------------------------------------------------------------------
+def metadata_free_structure_rule(cx, rep, rid):
+    """C08.18.  Comments and JSDoc are meaning-preserving: the metadata a type carries (its description) may be copied
+    and printed, but it never DECIDES anything.  Decided: outside the printer (which renders the metadata into the
+    emitted module), no `if` condition, `match` scrutinee or arm guard of beff-core reads a field of the metadata record
+    (directly, or through a binding taken out of a `Runtype { .., metadata }` pattern).  A smart constructor that
+    flattens a nested union only when it has no description makes `A | /** doc */ (B | C)` a different validator (and
+    hash256) from `A | (B | C)`."""
+    F = cx.rs
+    trees = _core_trees(F)
+    meta_adts = {a for a in F.adts if a.endswith("RuntypeMetadata")} if hasattr(F, "adts") else set()
+    n_fn = 0
+    n_reads = 0
+    for g in sorted(trees):
+        t = trees[g]
+        f = F.fns[g]
+        if "/src/print/" in (f.file or "") or "/tests" in (f.file or ""):
+            continue
+        C = Closure(t)
+        # bindings that hold the metadata record (taken out of a struct pattern by field name, or typed as it)
+        meta_lids = set()
+        for n in walk(t["body"]):
+            if n["k"] == "P.Struct":
+                for fl in n.get("fields") or []:
+                    if fl.get("name") == "metadata":
+                        meta_lids |= {b.get("lid") for b in walk(fl["pat"]) if b["k"] == "P.Binding"}
+            if n["k"] == "P.Binding" and "RuntypeMetadata" in (n.get("ty") or ""):
+                meta_lids.add(n.get("lid"))
+
+        def reads_meta(e):
+            for x in C.nodes(e):
+                if x["k"] == "Field" and ((x.get("adt") or "").endswith("RuntypeMetadata") or (x["name"] == "metadata" and (x.get("adt") or "").endswith("Runtype"))):
+                    return x
+                if x["k"] == "Path" and x.get("res") == "local" and x.get("lid") in meta_lids:
+                    return x
+            return None
+        touched = any(True for x in walk(t["body"]) if (x["k"] == "Field" and ((x.get("adt") or "").endswith("RuntypeMetadata") or x["name"] == "metadata")) or (x["k"] == "Path" and x.get("lid") in meta_lids))
+        if touched:
+            n_fn += 1
+        bad = []
+        for n in walk(t["body"]):
+            conds = []
+            if n["k"] == "If":
+                conds.append(n["cond"])
+            if n["k"] == "Match" and not (n.get("src") or "").startswith(("TryDesugar", "ForLoopDesugar")):
+                conds.append(n["scrut"])
+                conds += [a["guard"] for a in n["arms"] if a.get("guard")]
+            for c in conds:
+                r = reads_meta(c)
+                if r is not None:
+                    bad.append(r)
+        n_reads += len(bad)
+        if touched:
+            rep.ob(rid, "%s/metadata-decides-nothing" % g.rsplit("::", 1)[-1], not bad,
+                   "%s branches on the metadata of a type (a condition / match scrutinee / arm guard reads it, line %s): a description comes from a comment or JSDoc, so the structure that is built - and with it the validator and its hash256 - changes when a comment is added: `boolean | /** doc */ (string | number)` stays a nested union while `boolean | (string | number)` is flattened"
+                   % (g, bad[0]["line"] if bad else "?"), "%s:%s" % (f.file, bad[0]["line"] if bad else f.line), sample={"fn": g})
+    rep.floor(rid, "functions outside the printer that touch the metadata record", n_fn, 2)
+
+
+# ---------------------------------------------------------------------------------------------------------------------
+def visibility_consulted_rule(cx, rep, rid):
+    """C09.21.  Whether a name is looked up among a module's LOCAL declarations or in its EXPORT table is carried by a
+    `Visibility` parameter: `import("./t").N` must go through t's exports even when t has a private `N`.  Decided: in
+    every function of the frontend that takes a `Visibility`, no value leaves (error exits of `?` aside) on a path on
+    which the parameter has not been read (matched on, or handed to a callee).  A memo / table hit answered before the
+    visibility is consulted binds `import("./t").N` to t's private `N` once that was extracted earlier."""
+    F = cx.rs
+    trees = _core_trees(F)
+    n = 0
+    for g in sorted(trees):
+        t = trees[g]
+        f = F.fns[g]
+        if "/src/frontend/" not in (f.file or ""):
+            continue
+        vis = []
+        for p_ in t.get("params", []):
+            for b in walk(p_):
+                if b["k"] == "P.Binding" and (b.get("ty") or "").replace("&", "").strip().endswith("Visibility"):
+                    vis.append(b.get("lid"))
+        if not vis:
+            continue
+        n += 1
+        exits = hirpath.unpreceded_exits(F, CRATE, t["body"], lambda x: x["k"] == "Path" and x.get("res") == "local" and x.get("lid") in vis, lambda e: False, depth=0)
+        # an exit whose own expression reads the parameter consults it
+        exits = [e for e in exits if not any(x["k"] == "Path" and x.get("lid") in vis for x in walk(e))]
+        # diagnostics are no answers (`return self.error(..)`, `Err(..)`)
+        def is_diag(e):
+            for x in walk(e):
+                if x["k"] in ("Call", "MethodCall"):
+                    nm = (x.get("method") or (x.get("callee") or "")).rsplit("::", 1)[-1]
+                    return nm in ("error", "box_error", "build_error", "Err", "push_error")
+            return False
+        exits = [e for e in exits if not is_diag(e)]
+        # a hit in the scope stack of type parameters (a pushed-and-popped Vec<(String, _)>) is no table answer: the
+        # parameters of the enclosing declaration are found by name before anything is resolved in a module
+        C = Closure(t)
+        def from_scope_stack(e):
+            return any(x["k"] == "Field" and (x["name"].endswith("_stack") or "Vec<(std::string::String" in (x.get("ty") or "")) for x in C.nodes(e))
+        exits = [e for e in exits if not from_scope_stack(e)]
+        # an exit that states the visibility itself (`Visibility::Export` for the target of an import type) decides it
+        def states_visibility(e):
+            return any(x["k"] == "Path" and x.get("res") == "def" and "Visibility::" in (x.get("def") or "") for x in C.nodes(e))
+        exits = [e for e in exits if not states_visibility(e)]
+        rep.ob(rid, "%s/visibility-consulted" % g.rsplit("::", 1)[-1], not exits,
+               "%s returns a value (line %s) on a path that has not read its `Visibility` parameter: a name reached through `import(\"./t\").N` must be looked up in t's EXPORT table - an answer taken from a table keyed by (file, name) before that binds it to t's private `N` (silently the wrong type when t exports something else under that name, and no diagnostic when t exports no `N`), depending on which parser was extracted first"
+               % (g, exits[0]["line"] if exits else "?"), "%s:%s" % (f.file, exits[0]["line"] if exits else f.line), sample={"fn": g})
+    rep.floor(rid, "frontend functions that take a Visibility", n, 4)
 
 
 # =====================================================================================================================
@@ -779,17 +889,50 @@ def synthetic_name_digest_rule(cx, rep, rid):
     rep.floor(rid, "made-up definition names (built by a method, used for $ref and for the definition protocol)", n, 1)
 
 
+_SUBREPORTS = {}
+
+
+def lift_rule(cx, rep, rid, src_pid, src_rules, why):
+    """a rule of another property that is also a necessary condition of this one: run that property's rules in a
+    sub-report (once per process) and take over the verdicts of the named rules (findings recorded for the other
+    property stay recorded there)"""
+    import importlib
+    import json as _json
+    import os as _os
+    from report import Report
+    if src_pid not in _SUBREPORTS:
+        sub = Report.__new__(Report)
+        sub.pid = "sub"; sub.tier = rep.tier; sub.level = "other"; sub.t0 = 0
+        sub.rules = {}; sub.violations = []; sub.samples = []; sub.analysed = {}; sub.assumptions = []; sub.trusted = []
+        sub.explanation = ""; sub.notes = []; sub.extra = {}; sub.known = {}; sub.known_hit = set()
+        importlib.import_module("rules." + src_pid.lower()).run(cx, sub)
+        _SUBREPORTS[src_pid] = sub
+    sub = _SUBREPORTS[src_pid]
+    kf = _json.load(open(_os.path.join(_os.path.dirname(_os.path.dirname(_os.path.abspath(__file__))), "known_findings.json")))
+    known_elsewhere = {e["key"] for e in kf.get("findings", [])}
+    for r_ in src_rules:
+        rr = sub.rules.get(r_, {"obligations": 0, "discharged": 0})
+        bad = [v for v in sub.violations if v["rule"] == r_ and v["key"] not in known_elsewhere]
+        rep.ob(rid, r_, not bad and rr["obligations"] > 0,
+               "%s is violated, %s: %s" % (r_, why, "; ".join(v["msg"][:220] for v in bad[:2])),
+               bad[0]["loc"] if bad else None, sample={"rule": r_, "obligations": rr["obligations"], "discharged": rr["discharged"]})
+
+
 # ---------------------------------------------------------------------------------------------------------------------
 REGISTRY = {
-    "C09": [("C09.20", "every route that registers an export payload registers it in the same namespaces", registration_routes_rule)],
+    "C09": [("C09.21", "a function that takes a Visibility reads it on every path to a value exit", visibility_consulted_rule),
+            ("C09.20", "every route that registers an export payload registers it in the same namespaces", registration_routes_rule)],
     "C07": [("C07.15", "an operator over any operand evaluates the projection of every structural family and unites them", family_dispatch_rule)],
-    "C01": [("C01.27", "no answer is taken from ONE member of an intersection (loops / find over the members of AllOf)", conjunct_selection_rule)],
-    "C08": [("C08.17", "the scope of a declaration's type parameters covers every part of the declaration that is converted", declaration_scope_rule),
+    "C01": [("C01.27", "no answer is taken from ONE member of an intersection or union (loops / find over the members of AllOf / AnyOf)", conjunct_selection_rule)],
+    "C08": [("C08.18", "the metadata of a type (descriptions from comments) decides nothing outside the printer", metadata_free_structure_rule),
+            ("C08.17", "the scope of a declaration's type parameters covers every part of the declaration that is converted", declaration_scope_rule),
             ("C08.16", "no runtime class reads a property of the input through an own-only (hasOwnProperty-guarded) getter", own_only_read_rule)],
     "C03": [("C03.22", "the deep merge of parse results drops no key because of its name (no name filter, no `in` on data)", merge_keeps_keys_rule),
             ("C03.21", "a class with child validators hands back the input itself only where a test established it is not an object", composite_parse_rule)],
     "C13": [("C13.13", "a number literal is encoded with the shortest round-trip rendering only (injective on doubles)", number_encoding_rule)],
-    "C02": [("C02.23", "a made-up definition name stands for one structure only: it derives from a collision-resistant digest (= C16.11)", synthetic_name_digest_rule)],
+    "C02": [("C02.24", "every emitted $ref resolves: the $ref text is a pure function of the name and a definition is stored under its own name (C16.8 lifted)",
+             lambda cx, rep, rid: lift_rule(cx, rep, rid, "C16", ["C16.8"], "so a $ref emitted while a name was in progress can differ from the key its definition is exported under and dangle")),
+            ("C02.23", "a made-up definition name stands for one structure only: it derives from a collision-resistant digest (= C16.11)", synthetic_name_digest_rule)],
     "C16": [("C16.11", "a made-up definition name stands for one structure only: it derives from a collision-resistant digest", synthetic_name_digest_rule),
             ("C16.10", "definition names reach the $ref text, the bookkeeping and the export verbatim", verbatim_name_rule)],
     "C05": [("C05.16", "an index signature's value type read as the type of one admitted key is optional", undeclared_key_reading_rule)],
